@@ -564,7 +564,7 @@ class SymPaths:
 
     def assign(self, target, value, path):
         if isinstance(target, ast.Name):
-            fresh_copy = (isinstance(value, ast.Subscript) and isinstance(value.slice, ast.Slice)) \
+            fresh_copy = (isinstance(value, ast.Subscript) and isinstance(value.slice, ast.Slice) and value.slice.lower is None and value.slice.upper is None and value.slice.step is None) \
                 or (isinstance(value, ast.Call) and isinstance(value.func, ast.Name) and value.func.id in ('list', 'dict', 'set', 'sorted') and value.args) \
                 or (isinstance(value, ast.Call) and isinstance(value.func, ast.Attribute) and value.func.attr == 'copy' and not value.args)
             if isinstance(value, (ast.List, ast.Dict, ast.Set, ast.ListComp, ast.DictComp, ast.SetComp)) or (fresh_copy and self.named_constants):
